@@ -39,6 +39,10 @@ type Clause struct {
 	Params []ClauseParam
 	ModKind string // for modifies: elems | obj | field | mapof | global
 	ModField string
+	Anchor  string // for assert: source text prefix of the statement before which it holds
+	AnchorPos, AnchorEnd token.Pos
+	AnchorFile string
+	AnchorOff, AnchorEndOff int
 	Known  bool
 }
 
@@ -51,6 +55,8 @@ type Contract struct {
 	Invs      map[int][]*Clause
 	Decr      map[int]*Clause
 	Modifies  []*Clause
+	Asserts   []*Clause
+	Linear    []string // slice variables used linearly (s = append(s, ...))
 	Inline    bool
 	Strict    bool
 	Trusted   bool
@@ -139,6 +145,18 @@ func parseContractFile(path, pkgPath string) ([]*Contract, error) {
 		case "panics":
 			rest = strings.TrimSpace(strings.TrimPrefix(rest, "when"))
 			cur.PanicsWhen = mk("panics", -1, rest)
+		case "assert":
+			// assert "anchor": expr
+			if !strings.HasPrefix(rest, "\"") {
+				return nil, fmt.Errorf("%s:%d: assert needs a quoted anchor", path, i+1)
+			}
+			j := strings.Index(rest[1:], "\":")
+			if j < 0 {
+				return nil, fmt.Errorf("%s:%d: assert needs \"anchor\": expr", path, i+1)
+			}
+			c := mk("assert", -1, strings.TrimSpace(rest[j+3:]))
+			c.Anchor = rest[1 : j+1]
+			cur.Asserts = append(cur.Asserts, c)
 		case "loop":
 			var k int
 			var kind string
@@ -188,6 +206,12 @@ func parseContractFile(path, pkgPath string) ([]*Contract, error) {
 				}
 				c.Text = inner
 				cur.Modifies = append(cur.Modifies, c)
+			}
+		case "linear":
+			for _, n := range strings.Split(rest, ",") {
+				if n = strings.TrimSpace(n); n != "" {
+					cur.Linear = append(cur.Linear, n)
+				}
 			}
 		case "inline":
 			cur.Inline = true
@@ -245,6 +269,14 @@ func rewriteSpec(s string) string {
 		binder := strings.TrimSpace(s[i+len("forall") : i+j])
 		body := rewriteSpec(s[i+j+2:])
 		q := fmt.Sprintf("verif_forall(func(%s) bool { return %s })", binder, body)
+		if k := strings.Index(binder, " in "); k >= 0 {
+			// forall k int in lo..hi :: body   (hi exclusive)
+			rng := strings.SplitN(binder[k+4:], "..", 2)
+			if len(rng) != 2 {
+				panic("bad range in forall")
+			}
+			q = fmt.Sprintf("verif_forall_range(%s, %s, func(%s) bool { return %s })", strings.TrimSpace(rng[0]), strings.TrimSpace(rng[1]), strings.TrimSpace(binder[:k]), body)
+		}
 		prefix := s[:i]
 		if strings.TrimSpace(prefix) == "" {
 			return q
@@ -633,7 +665,7 @@ func (g *genCtx) genClause(c *Contract, cl *Clause, fs *fnSyntax, si *sigInfo) e
 		params = append(params, p)
 		decl = append(decl, p.Name+" "+p.TypeStr)
 	}
-	isInv := cl.Kind == "invariant" || cl.Kind == "decreases"
+	isInv := cl.Kind == "invariant" || cl.Kind == "decreases" || cl.Kind == "assert"
 	for i, p := range si.params {
 		add(ClauseParam{Name: si.pnames[i], Kind: "param", Index: i}, p.Type())
 	}
@@ -658,15 +690,41 @@ func (g *genCtx) genClause(c *Contract, cl *Clause, fs *fnSyntax, si *sigInfo) e
 			add(ClauseParam{Name: "ITER", Kind: "iter"}, types.Typ[types.Int])
 			have["ITER"] = true
 		}
-		if cl.Loop >= len(fs.loops) {
-			return fmt.Errorf("%s:%d: loop %d does not exist in %s (has %d loops)", c.File, c.Line, cl.Loop, c.Func, len(fs.loops))
-		}
 		var pos token.Pos
-		switch l := fs.loops[cl.Loop].(type) {
-		case *ast.ForStmt:
-			pos = l.Body.Lbrace
-		case *ast.RangeStmt:
-			pos = l.Body.Lbrace
+		if cl.Kind == "assert" {
+			var found []ast.Stmt
+			ast.Inspect(fs.body, func(nd ast.Node) bool {
+				if _, ok := nd.(*ast.FuncLit); ok {
+					return false
+				}
+				if st, ok := nd.(ast.Stmt); ok {
+					if _, isBlock := st.(*ast.BlockStmt); !isBlock {
+						txt := strings.Join(strings.Fields(nodeText(g.pkg.Fset, st)), " ")
+						if strings.HasPrefix(txt, strings.Join(strings.Fields(cl.Anchor), " ")) {
+							found = append(found, st)
+						}
+					}
+				}
+				return true
+			})
+			if len(found) == 0 {
+				return fmt.Errorf("%s:%d: assert anchor %q not found in %s", c.File, c.Line, cl.Anchor, c.Func)
+			}
+			// outermost first match
+			pos = found[0].Pos()
+			cl.AnchorPos, cl.AnchorEnd = found[0].Pos(), found[0].End()
+			pp, pe := g.pkg.Fset.Position(found[0].Pos()), g.pkg.Fset.Position(found[0].End())
+			cl.AnchorFile, cl.AnchorOff, cl.AnchorEndOff = pp.Filename, pp.Offset, pe.Offset
+		} else {
+			if cl.Loop >= len(fs.loops) {
+				return fmt.Errorf("%s:%d: loop %d does not exist in %s (has %d loops)", c.File, c.Line, cl.Loop, c.Func, len(fs.loops))
+			}
+			switch l := fs.loops[cl.Loop].(type) {
+			case *ast.ForStmt:
+				pos = l.Body.Lbrace
+			case *ast.RangeStmt:
+				pos = l.Body.Lbrace
+			}
 		}
 		scope := g.pkg.Types.Scope().Innermost(pos)
 		var names []string
@@ -762,6 +820,7 @@ func generateClauses(pkg *packages.Package, contracts []*Contract) (string, []er
 			all = append(all, d)
 		}
 		all = append(all, c.Modifies...)
+		all = append(all, c.Asserts...)
 		if c.PanicsWhen != nil {
 			all = append(all, c.PanicsWhen)
 		}
